@@ -48,12 +48,11 @@ class TimeActiveDecorator(TriggerHandlerDecorator, AutoKwargsDecorator):
             else:
                 now = dt_now()
 
-            for time_spec in self.args:
-                _LOGGER.debug("time_spec %s, %s", time_spec, self)
-                _LOGGER.debug("time_active now %s, %s", now, self)
-                if await trigger.TrigTime.timer_active_check(time_spec, now, self.dm.startup_time):
-                    self.last_trig_time = time.monotonic()
-                    return True
+            # the specifications are combined as a whole: any positive one and no "not" one must match
+            _LOGGER.debug("time_active %s now %s, %s", self.args, now, self)
+            if await trigger.TrigTime.timer_active_check(list(self.args), now, self.dm.startup_time):
+                self.last_trig_time = time.monotonic()
+                return True
             return False
 
         self.last_trig_time = time.monotonic()
